@@ -136,21 +136,6 @@ func isConstStringTerm(t Term) (string, bool) {
 	return constant.StringVal(k.Val), true
 }
 
-// stripConv removes conversions between integer types (value-preserving for folding small values).
-func stripIntConv(t Term) Term {
-	for {
-		c, ok := t.(TConv)
-		if !ok {
-			return t
-		}
-		b, ok := c.To.Underlying().(*types.Basic)
-		if !ok || b.Info()&types.IsInteger == 0 {
-			return t
-		}
-		t = c.X
-	}
-}
-
 // ---- finite folding of terms
 
 type termEnv struct {
@@ -284,45 +269,6 @@ func (e *termEnv) bool(t Term) (bool, bool) {
 		e.fail = "boolean term outside the vocabulary: " + key(t)
 	}
 	return false, false
-}
-
-// feasible: do all conditions of the path hold under the assignment? (ok=false: some condition cannot be folded)
-func (e *termEnv) feasible(conds []Cond) (holds bool, ok bool) {
-	for _, c := range conds {
-		v, ok := e.bool(c.T)
-		if !ok {
-			return false, false
-		}
-		if v != c.Truth {
-			return false, true
-		}
-	}
-	return true, true
-}
-
-// selectPath returns the unique path whose foldable conditions hold; conditions matched by skip are ignored (treated as non-deterministic).
-func selectPaths(paths []*Path, e *termEnv, skip func(Cond) bool) (sel []*Path, why string) {
-	for _, p := range paths {
-		holds := true
-		for _, c := range p.Conds() {
-			if skip != nil && skip(c) {
-				continue
-			}
-			sub := &termEnv{hook: e.hook}
-			v, ok := sub.bool(c.T)
-			if !ok {
-				return nil, sub.fail
-			}
-			if v != c.Truth {
-				holds = false
-				break
-			}
-		}
-		if holds {
-			sel = append(sel, p)
-		}
-	}
-	return sel, ""
 }
 
 // ---- printing (debug and evidence samples)
